@@ -423,7 +423,9 @@ theorem parseImpl_rename {g1 g2 : Grammar} (h : Sim g1 g2 ρ D) (hA : Agree p q 
   case or es =>
     exact orImpl_rename hA g1 g2 R hign s acts es hkid (hnl es hk)
       (fun e he => callPreOf_rename h (hkid e he)) loc
-  case opt e dflt => rw [hA e (hkid e (by simp)), optDefault_rename h (hkid e (by simp))]
+  case opt e dflt =>
+    rw [hA e (hkid e (by simp)), optDefault_rename h (hkid e (by simp))]
+    simp only [optNoMatch, R.acts]
   case many e ne one =>
     have he : D e := hkid e (by simp)
     have hne : ∀ x, ne = some x → D x := fun x hx => hkid x (by simp [hx])
